@@ -23,6 +23,7 @@
     [complete_op o b j]    o is MarkComplete for job (b, j);
     [commit_op o b u]      o is Commit of update (b, u);
     [is_job_cancelled]     the SQL function of that name; [jcommitted s x]: the update of row x is committed. *)
+From HailV Require BatchDB.Tally BatchDB.TallyInv.
 From HailV Require Import Common.Prelude BatchDB.Model BatchDB.Tables BatchDB.JobsWF BatchDB.Legal BatchDB.DepsDef
   BatchDB.DepsStruct BatchDB.Deps BatchDB.JobChange.
 Open Scope Z_scope.
@@ -81,6 +82,33 @@ Theorem C04_pending_passes_ready : forall ops ext b j x x',
   exists ext1 ext2 y, ext = ext1 ++ ext2 /\ find_job (run (ops ++ ext1)) b j = Some y /\ j_state y = Ready.
 Proof. exact pending_passes_ready. Qed.
 Print Assumptions C04_pending_passes_ready.
+
+(** The TALLY half.  After every good history the completed / succeeded / failed / cancelled numbers of every job
+    group (the batch's numbers are those of its root group, [Props_C06.C06_batch_counts]) are the NUMBER OF ROWS of the
+    jobs table that lie in the group's subtree and are in the corresponding state ([TallyInv.subtree] is a filter of the
+    jobs table and job keys are unique, so a job is one row and is counted once in each tally of each group above it and
+    in no other group).  Since a row's terminal state never changes ([C04_terminal_absorbing]) and these equalities hold
+    after EVERY history — with any number of repeated, late or stale completion reports in it — a job is counted exactly
+    once however often or late completion is reported ... *)
+Theorem C04_tallies_count_each_job_once : forall ops, good_history ops ->
+  let s := run ops in
+  forall gr, In gr (groups s) ->
+    let sub := TallyInv.subtree s (g_batch gr) (g_id gr) in
+    g_njobs gr = Z.of_nat (length sub) /\ g_ncompleted gr = TallyInv.count terminal sub /\ g_nsucc gr = TallyInv.count Tally.q_succ sub /\
+    g_nfailed gr = TallyInv.count Tally.q_fail sub /\ g_ncancelled gr = TallyInv.count Tally.q_canc sub.
+Proof. exact TallyInv.reach_counts. Qed.
+Print Assumptions C04_tallies_count_each_job_once.
+
+(** ... and, from ANY state, a completion report for a job that is already terminal, or that carries an attempt id other
+    than the job's current one, changes no job, group or batch row at all (answer: the old state, rc 2, or error 1452). *)
+Theorem C04_repeated_or_stale_completion_changes_nothing : forall s b j a i ns st en r x,
+  find_job s b j = Some x ->
+  terminal (j_state x) = true \/ (exists e, j_attempt x = Some e /\ a <> -1 /\ e <> a) ->
+  let res := step s (MarkComplete b j a i ns st en r) in
+  groups (fst res) = groups s /\ batches (fst res) = batches s /\ jobs (fst res) = jobs s /\
+  (snd res = sql_error 1452 \/ (exists d, snd res = ok [2; d]) \/ (exists d, snd res = ok [0; d; jcode (j_state x)])).
+Proof. exact TallyInv.counted_once. Qed.
+Print Assumptions C04_repeated_or_stale_completion_changes_nothing.
 
 (** Non-vacuity: [Deps.demo_history] is a good history in which a job is scheduled (Ready -> Running), fails, its child
     gets the cancelled mark, and a job of a second update waits uncommitted (the demo_ examples of JobChange.v). *)
